@@ -2,10 +2,13 @@
    Only statements, `exact`, and Print Assumptions.  `rejects v` = exists k, v = Reject k.
    The ThresholdOptimizer theorems are stated on the constraint / objective tables REGENERATED
    from /repo (FLGen.Gen_tables) on every run; C20_tables_as_specified ties them to the tables
-   the property specifies (the ones the correspondence run evaluates). *)
+   the property specifies (the ones the correspondence run evaluates).
+   The C20_src_* theorems (end of the file) are stated on the GUARDS regenerated from /repo
+   (FLGen.Gen_validate: condition, operands, flags and position of every check): their meaning,
+   given by the interpreters of FL.ValidateSrc, is the decision function of the model. *)
 From Coq Require Import ZArith QArith List Bool.
-From FL Require Import Num Validate Validate_proofs.
-From FLGen Require Gen_tables.
+From FL Require Import Num Validate Validate_proofs ValidateSrc ValidateSrc_proofs.
+From FLGen Require Gen_tables Gen_validate.
 Import ListNotations.
 Open Scope Z_scope.
 
@@ -284,4 +287,128 @@ Example C20_example :
                      (mkData 6 (Some [0; 1; 1; 1; 1; 1]) (Some [7; 7; 8; 8; 7; 8]) None)) = Reject KDegenerate /\
   validate_metric_frame (mkMF 6 6 [] (mkFeats (FSeries (Some (NStr 1))) 6)
                               (Some (mkFeats (FFrame [NStr 2; NStr 1]) 6))) = Reject KDuplicateName.
+Proof. vm_compute. repeat split; reflexivity. Qed.
+
+(* ====================================================================================== *)
+(* The checks of the current source (FLGen.Gen_validate) are the checks the model decides *)
+(* ====================================================================================== *)
+
+(* every regenerated description equals the one the hand-written decision functions implement *)
+Theorem C20_src_as_specified :
+  Gen_validate.input_guards = model_input_guards /\ Gen_validate.load_calls = model_load_calls /\
+  Gen_validate.to_call = model_to_call /\ Gen_validate.bounds_init = model_bounds_src /\
+  Gen_validate.costs_init = model_costs_src /\ Gen_validate.gs_ctor = model_gs_src /\
+  Gen_validate.degenerate = model_deg_src /\ Gen_validate.pf = model_pf_src /\
+  Gen_validate.mf_init = model_mf_src /\ Gen_validate.cr = model_cr_src /\
+  Gen_validate.fitted = model_fitted_src.
+Proof.
+  exact (conj (eq_refl model_input_guards) (conj (eq_refl model_load_calls) (conj (eq_refl model_to_call)
+        (conj (eq_refl model_bounds_src) (conj (eq_refl model_costs_src) (conj (eq_refl model_gs_src)
+        (conj (eq_refl model_deg_src) (conj (eq_refl model_pf_src) (conj (eq_refl model_mf_src)
+        (conj (eq_refl model_cr_src) (eq_refl model_fitted_src))))))))))).
+Qed.
+Print Assumptions C20_src_as_specified.
+
+(* _validate_and_reformat_input: running the guards of the source in source order, under the flags
+   with which each load_data / ThresholdOptimizer.fit calls it, is validate_input / validate_load /
+   validate_reduction_fit / validate_threshold_optimizer *)
+Theorem C20_src_input_validation :
+  (forall es eb d, run_guards (mkFlags true eb es) d Gen_validate.input_guards = validate_input es eb d) /\
+  (forall m d, run_load Gen_validate.input_guards Gen_validate.load_calls m d = validate_load m d) /\
+  (forall r, reduction_fit_with (run_load Gen_validate.input_guards Gen_validate.load_calls) r
+             = validate_reduction_fit r) /\
+  (forall T i, threshold_optimizer_with (run_call Gen_validate.input_guards Gen_validate.to_call) T i
+               = validate_threshold_optimizer T i).
+Proof.
+  exact (input_validation_src Gen_validate.input_guards Gen_validate.load_calls Gen_validate.to_call
+           (eq_refl model_input_guards) (eq_refl model_load_calls) (eq_refl model_to_call)).
+Qed.
+Print Assumptions C20_src_input_validation.
+
+(* UtilityParity.__init__: the branch chain and the range test of the source decide validate_bounds *)
+Theorem C20_src_bounds : forall b, run_bounds Gen_validate.bounds_init b = validate_bounds b.
+Proof. exact (bounds_src_model Gen_validate.bounds_init (eq_refl model_bounds_src)). Qed.
+Print Assumptions C20_src_bounds.
+
+(* ErrorRate.__init__: the accepting conjunction of the source decides validate_costs *)
+Theorem C20_src_costs : forall c, run_costs Gen_validate.costs_init c = validate_costs c.
+Proof. exact (costs_src_model Gen_validate.costs_init (eq_refl model_costs_src)). Qed.
+Print Assumptions C20_src_costs.
+
+(* GridSearch.__init__ (Moment test, selection rule, constraint_weight range) and then fit *)
+Theorem C20_src_constraint_weight :
+  (forall r, run_gs r Gen_validate.gs_ctor = validate_gs_ctor r) /\
+  (forall r, reduction_src Gen_validate.input_guards Gen_validate.load_calls Gen_validate.gs_ctor r
+             = validate_reduction r).
+Proof.
+  exact (gs_src_model Gen_validate.input_guards Gen_validate.load_calls Gen_validate.gs_ctor
+           (eq_refl model_input_guards) (eq_refl model_load_calls) (eq_refl model_gs_src)).
+Qed.
+Print Assumptions C20_src_constraint_weight.
+
+(* _get_counts / _calculate_tradeoff_points: on binary labels the source's guard fires exactly when a
+   label is missing from the group; with it, ThresholdOptimizer.fit read off the source (tables, shared
+   validation, guard) is the model's decision *)
+Theorem C20_src_degenerate_guard :
+  (forall ls, forallb binary ls = true ->
+     deg_rejects Gen_validate.degenerate ls = negb (existsb (Z.eqb 0) ls && existsb (Z.eqb 1) ls)) /\
+  (forall d, (forall ys, d_y d = Some ys -> forallb binary ys = true) ->
+     groups_ok_src Gen_validate.degenerate d = groups_ok d) /\
+  (forall T i, threshold_optimizer_src Gen_validate.input_guards Gen_validate.to_call Gen_validate.degenerate T i
+               = validate_threshold_optimizer T i).
+Proof.
+  exact (degenerate_src_model Gen_validate.input_guards Gen_validate.to_call Gen_validate.degenerate
+           (eq_refl model_input_guards) (eq_refl model_to_call) (eq_refl model_deg_src)).
+Qed.
+Print Assumptions C20_src_degenerate_guard.
+
+(* MetricFrame.__init__ / _process_features / GroupFeature.__init__: the length checks on y_true / y_pred,
+   every sample parameter and every feature column, the name tests and the duplicate loop of the source,
+   in source order, decide validate_metric_frame *)
+Theorem C20_src_metric_frame_checks :
+  (forall f n, wf_kind f -> process_features_src Gen_validate.pf f n = process_features f n) /\
+  (forall i, wf_kind (m_sf i) -> (forall c, m_cf i = Some c -> wf_kind c) ->
+             metric_frame_src Gen_validate.pf Gen_validate.mf_init i = validate_metric_frame i).
+Proof.
+  exact (metric_frame_src_model Gen_validate.pf Gen_validate.mf_init (eq_refl model_pf_src) (eq_refl model_mf_src)).
+Qed.
+Print Assumptions C20_src_metric_frame_checks.
+
+(* CorrelationRemover.fit / _check_sensitive_features_in_X *)
+Theorem C20_src_correlation_remover : forall i, run_cr Gen_validate.cr i = validate_correlation_remover i.
+Proof. exact (cr_src_model Gen_validate.cr (eq_refl model_cr_src)). Qed.
+Print Assumptions C20_src_correlation_remover.
+
+(* check_is_fitted(self) is the first thing every predict / predict_proba / _pmf_predict / _raw_predict /
+   transform of the source does; every estimator has its user-facing method listed *)
+Theorem C20_src_fitted_checks :
+  (forall e m p fitted, In (e, m, p) Gen_validate.fitted ->
+     run_fitted Gen_validate.fitted e m fitted = validate_predict e fitted) /\
+  (forall e, exists p, In (e, main_meth e, p) Gen_validate.fitted) /\
+  (forall e, run_fitted Gen_validate.fitted e (main_meth e) false = Reject KNotFitted).
+Proof. exact (fitted_src_model Gen_validate.fitted (eq_refl model_fitted_src)). Qed.
+Print Assumptions C20_src_fitted_checks.
+
+(* non-vacuity of the source descriptions: a description with ONE guard changed means something else *)
+Example C20_src_example :
+  (* control-feature length checked against sensitive_features *)
+  run_guards (mkFlags true true true) (mkData 2 (Some [0; 1]) (Some [7; 8]) (Some [5]))
+    [mkGuard [] (GLength ACf AX ASf)] = Accept /\
+  run_guards (mkFlags true true true) (mkData 2 (Some [0; 1]) (Some [7; 8]) (Some [5]))
+    Gen_validate.input_guards = Reject KLenXCf /\
+  (* n_negative == n *)
+  deg_rejects (mkDegSrc DLen DSum (DSub NAll NPos) true [(NPos, CEq, OConst 0); (NNeg, CEq, OCnt NAll)]) [1; 1]
+    = false /\
+  deg_rejects Gen_validate.degenerate [1; 1] = true /\
+  (* 0 <= ratio_bound *)
+  run_bounds (mkBoundsSrc [mkBranch [(BDiff, TIsNone); (BRatio, TIsNotNone)] (BRange BRatio (mkRange 0 CLe CLe 1))] BRaise)
+    (mkBounds None (Some (Fin 0))) = Accept /\
+  run_bounds Gen_validate.bounds_init (mkBounds None (Some (Fin 0))) = Reject KRatioRange /\
+  (* sample parameter assigned through a Series *)
+  run_mf Gen_validate.pf (mkMF 3 3 [2%nat] (mkFeats FList 3) None)
+    [MLenTruePred; MSampleParams ViaSeries; MSensitive; MControl; MDuplicate] = Accept /\
+  run_mf Gen_validate.pf (mkMF 3 3 [2%nat] (mkFeats FList 3) None) Gen_validate.mf_init = Reject KLenSampleParam /\
+  (* check_is_fitted removed *)
+  run_fitted [(EGridSearch, MPredict, PAbsent)] EGridSearch MPredict false = Accept /\
+  run_fitted Gen_validate.fitted EGridSearch MPredict false = Reject KNotFitted.
 Proof. vm_compute. repeat split; reflexivity. Qed.
